@@ -222,5 +222,63 @@ pub struct RangeProof {
     /// The statement identifier
     pub id: String,
     /// The range proof
+    #[serde(with = "bulletproof_serde")]
     pub proof: RangeProofBulletproof,
+}
+
+/// Serde adapter for the third-party bulletproof type. Its own implementation writes raw
+/// bytes and only reads raw bytes back, which self-describing text formats (JSON) present
+/// as a sequence of numbers: the proof could be written but never read. Human readable
+/// formats now carry a hex string; hex strings, byte strings and number sequences are
+/// all accepted when reading.
+pub(crate) mod bulletproof_serde {
+    use super::RangeProofBulletproof;
+    use serde::de::{Error as DError, SeqAccess, Visitor};
+    use serde::{Deserializer, Serialize, Serializer};
+    use std::fmt::Formatter;
+
+    /// hex in human readable formats, raw bytes otherwise
+    pub fn serialize<S: Serializer>(p: &RangeProofBulletproof, s: S) -> Result<S::Ok, S::Error> {
+        if s.is_human_readable() {
+            s.serialize_str(&hex::encode(p.to_bytes()))
+        } else {
+            p.serialize(s)
+        }
+    }
+
+    /// accepts a hex string, a byte string or a sequence of numbers
+    pub fn deserialize<'de, D: Deserializer<'de>>(d: D) -> Result<RangeProofBulletproof, D::Error> {
+        struct ProofVisitor;
+
+        impl<'de> Visitor<'de> for ProofVisitor {
+            type Value = RangeProofBulletproof;
+
+            fn expecting(&self, f: &mut Formatter) -> std::fmt::Result {
+                write!(f, "a range proof as hex string or bytes")
+            }
+
+            fn visit_str<E: DError>(self, v: &str) -> Result<Self::Value, E> {
+                let bytes = hex::decode(v).map_err(|e| E::custom(e.to_string()))?;
+                self.visit_bytes(&bytes)
+            }
+
+            fn visit_bytes<E: DError>(self, v: &[u8]) -> Result<Self::Value, E> {
+                RangeProofBulletproof::from_bytes(v).map_err(|_| E::custom("invalid range proof"))
+            }
+
+            fn visit_seq<A: SeqAccess<'de>>(self, mut seq: A) -> Result<Self::Value, A::Error> {
+                let mut bytes = Vec::new();
+                while let Some(b) = seq.next_element::<u8>()? {
+                    bytes.push(b);
+                }
+                self.visit_bytes(&bytes)
+            }
+        }
+
+        if d.is_human_readable() {
+            d.deserialize_any(ProofVisitor)
+        } else {
+            d.deserialize_bytes(ProofVisitor)
+        }
+    }
 }
